@@ -1409,11 +1409,11 @@ def check_C18(tier, seed):
                 continue
             c = cases[r["i"]]
             key = "predicate true exactly on segments %s" % c["p"]
-            exp = split_gap(concretise(c["out"]))
+            exp = concretise(c["out"])
             if r.get("panic"):
                 out.violations.append({"key": key, "desc": "generator panicked for %s" % key,
                                        "payload": {"kind": "crg", "case": c}})
-            elif split_gap([list(x) for x in r["ranges"]]) != exp or any(
+            elif [list(x) for x in r["ranges"]] != exp or any(
                     0xD800 <= x <= 0xDFFF for rr in r["ranges"] for x in rr):
                 out.violations.append({"key": key, "desc": "%s: generator returned %s, the maximal scalar ranges are %s" % (
                     key, [[hex(a), hex(b_)] for a, b_ in r["ranges"]], [[hex(a), hex(b_)] for a, b_ in exp]),
@@ -1430,8 +1430,8 @@ def check_C18(tier, seed):
                 "Correct (exact, scalar end points, sorted, disjoint, non-adjacent, maximal) at "
                 "termination and termination itself under weak fairness; each predicate is "
                 "concretised as a real fn(char)->bool and the real generator's return value is "
-                "compared with the concretised model result (a run crossing the surrogate gap may be "
-                "one range or split at the gap); the 20 real predicates are compared with "
+                "compared with the concretised model result (a run crossing the surrogate gap is one "
+                "range: U+D7FF and U+E000 are consecutive scalar values); the 20 real predicates are compared with "
                 "brute-force maximal runs",
         "samples": [{"abstract_predicate": cases[0]["p"], "model_result": cases[0]["out"]}] if cases else [],
         "tlc_cmd": tlc.cmd, "exhaustive": True,
